@@ -135,6 +135,7 @@ func setFailureMarkers(e *Env, s *spec.Spec, failing bool) {
 func C05Part(run *report.Run, st *Setup, tier string) {
 	FailurePatternPart(run, st, tierN(tier, 48, 600), "C05", map[string]bool{"exec": true, "exit": true})
 	FailingRerunPart(run, st, tierN(tier, 12, 120))
+	UncachedOmitPart(run, st, tierN(tier, 16, 96))
 }
 
 // FailurePatternPart: random failing subsets x failure kinds x keep-going / fail-fast over three
@@ -427,5 +428,66 @@ func FailingRerunPart(run *report.Run, st *Setup, n int) {
 			}
 		}
 		run.Sample(map[string]any{"failing_rerun_case": i, "dependants": nd, "history": env.Log})
+	})
+}
+
+// UncachedOmitPart (C05, C14): a target that bypasses the cache (no-cache tag, or the whole
+// build with --enable-cache=false) declares three or four outputs and leaves exactly one of them
+// missing - the first, a middle one or the last, a file or a directory. Whether its outputs exist
+// is established on a path of its own (they are hashed, not stored). The build must fail naming the
+// target, and the dependant must not run.
+func UncachedOmitPart(run *report.Run, st *Setup, n int) {
+	Parallel(n, func(i int) {
+		r := rng.Derive(uint64(run.Seed), run.Prop+"-uncached-omit", fmt.Sprint(i))
+		s := &spec.Spec{Files: map[string]string{"p/g.txt": "g1\n", "p/u.txt": "u1\n"}}
+		gen := &spec.Target{Pkg: "p", Name: "gen", Salt: r.Word(4, 8), Inputs: []string{"g.txt"},
+			Outs: []spec.Out{{Kind: "file", Path: "o0.out"}, {Kind: "file", Path: "o1.out"}, {Kind: "dir", Path: "o2.d"}}}
+		if r.Chance(1, 2) {
+			gen.Outs = append(gen.Outs, spec.Out{Kind: "file", Path: "o3.out"})
+		}
+		viaTag := i%2 == 0
+		if viaTag {
+			gen.Tags = []string{"no-cache"}
+		}
+		gen.Omit = gen.Outs[i/2%len(gen.Outs)].Path
+		gen.OmitIf = "markers/omit_gen"
+		use := &spec.Target{Pkg: "p", Name: "use", Salt: r.Word(4, 8), Inputs: []string{"u.txt"}, Deps: []string{"//p:gen"}, Outs: []spec.Out{{Kind: "file", Path: "use.out"}}}
+		other := &spec.Target{Pkg: "p", Name: "other", Salt: r.Word(4, 8), Inputs: []string{"u.txt"}, Outs: []spec.Out{{Kind: "file", Path: "other.out"}}}
+		s.Targets = []*spec.Target{gen, use, other}
+		gcfg := randCfg(r)
+		env, err := NewEnv(st.Base, fmt.Sprintf("uo%d", i), st.Grog, st.Vctl, s, gcfg)
+		if err != nil {
+			run.Infra(err.Error())
+			return
+		}
+		keep := false
+		defer func() {
+			if !keep {
+				env.Cleanup()
+			}
+		}()
+		env.SetMarker("markers/omit_gen", true)
+		obs := env.RunBuild(BuildOpts{DisableCache: !viaTag})
+		run.Eval(1)
+		run.Count("uncached_targets_with_one_output_missing", 1)
+		if obs.Res.Crashed() != "" || obs.Res.TimedOut {
+			run.Count("divergence_other_property:crash-or-hang", 1)
+			return
+		}
+		how := "no-cache tag"
+		if !viaTag {
+			how = "--enable-cache=false"
+		}
+		replay := map[string]any{"uncached_by": how, "declared_outputs": gen.Outs, "missing_output": gen.Omit, "started": obs.Started, "stdout": tail(obs.Res.Stdout, 1200), "stderr": tail(obs.Res.Stderr, 600)}
+		switch {
+		case obs.Res.Exit == 0:
+			keep = !run.Violation("exit-zero-despite-failure uncached-target-missing-output", fmt.Sprintf("//p:gen (%s) left its declared output %s missing (of %d declared) and the build exited 0", how, gen.Omit, len(gen.Outs)), replay) || keep
+		case obs.Started["//p:use"] > 0:
+			keep = !run.Violation("exec-after-dep-failure uncached-target-missing-output", fmt.Sprintf("//p:use ran although its dependency //p:gen (%s) left %s missing", how, gen.Omit), replay) || keep
+		case !strings.Contains(obs.Res.Stdout+obs.Res.Stderr, "//p:gen"):
+			keep = !run.Violation("failed-target-not-named uncached-target-missing-output", "the failing build does not name //p:gen", replay) || keep
+		default:
+			run.Nontrivial(fmt.Sprintf("uncached-omit|%v|%s|%d", viaTag, gen.Omit, len(gen.Outs)))
+		}
 	})
 }
